@@ -114,7 +114,10 @@ class Check(PropertyCheck):
         res = backend.run_full(cases)
         for c, r in zip(cases, res):
             self.evaluations += 1
-            if r["impl"] != r["model"]:
+            cmp = backend.compare_outputs(r["impl"], r["model"])
+            if cmp == "float":
+                self.count("inexact_float")
+            if cmp == "different":
                 dis.append(Disagreement("L3 full pipeline bytes", {"input": c[0], "input_hex": hx(c[0])},
                                         str(backend.first_difference(r["impl"], r["model"]))[:600], ""))
         return dis
